@@ -35,7 +35,7 @@ from tornado.escape import native_str, utf8
 from tornado.log import app_log, gen_log
 from tornado.util import GzipDecompressor
 
-CR_OR_LF_RE = re.compile(b"\r|\n")
+CR_OR_LF_RE = re.compile(b"[\x00\r\n]")
 
 
 class _QuietException(Exception):
@@ -470,7 +470,9 @@ class HTTP1Connection(httputil.HTTPConnection):
         lines.extend(line.encode("latin1") for line in header_lines)
         for line in lines:
             if CR_OR_LF_RE.search(line):
-                raise ValueError("Illegal characters (CR or LF) in header: %r" % line)
+                raise ValueError(
+                    "Illegal characters (CR, LF or NUL) in header: %r" % line
+                )
         future = None
         if self.stream.closed():
             future = self._write_future = Future()
